@@ -3,7 +3,7 @@ from . import supcommon as S
 
 OCAML = S.OCAML
 GO = S.GO
-FAMILIES = "state,mixed,finalstate,latesub,subclose,subentry".split(",")
+FAMILIES = "state,mixed,finalstate,latesub,subclose,subentry,timeoutfinal,slowstring,fullsub".split(",")
 PROP = "props/C06.v"
 PROOFS = ["proofs/SupInv.v", "proofs/SupStop.v", "proofs/SupTrig.v", "proofs/SupGate.v", "proofs/SupOnce.v", "proofs/SupReload.v", "proofs/SupState.v", "proofs/SupFinal.v", "proofs/SupSubs.v", "proofs/SupEntry.v"]
 
